@@ -100,6 +100,7 @@ package beacon
 
 //@ func (*SyncManager).tryNode(s, global, from, upTo, peer) (ok)
 //@   props C01 C10
+//@   ensures [C10:sync-configuration-is-left-alone] s.info == old(s.info) && s.scheme == old(s.scheme) && s.info.Period == old(s.info.Period) && s.info.GenesisTime == old(s.info.GenesisTime)
 //@   requires s.info != nil && s.scheme != nil && common.validPeriod(s.info.Period) && common.validGenesis(s.info.GenesisTime)
 //@   call Put#0: assert [C01,C10:resync-stores-only-verified-beacons] arg2 != nil && crypto.validSig(s.info.PublicKey, crypto.digestOf(s.scheme, arg2.Round, arg2.PreviousSig), arg2.Signature)
 //@   call Put#1: assert [C01,C10:sync-stores-only-verified-beacons] arg2 != nil && crypto.validSig(s.info.PublicKey, crypto.digestOf(s.scheme, arg2.Round, arg2.PreviousSig), arg2.Signature)
@@ -396,3 +397,19 @@ package beacon
 //@   rely grows stored(theStore())
 //@   call AddCallback#0: assert [C11:the-head-seen-when-the-stream-started-was-delivered-before-going-live] fromRound != 0 ==> sent(theStream(), last.Round)
 //@   call AddCallback#0: assert [C11:no-stored-round-is-skipped-between-catch-up-and-live-delivery] fromRound != 0 ==> (forall r int :: fromRound <= r && stored(theStore(), r) ==> sent(theStream(), r))
+
+// ---- C10: a sync that exhausted its peers says so with the sentinel the callers retry on ------------------------------
+//@ extern math/rand.Perm(n) (p)
+//@   trusted a permutation of 0..n-1
+//@   modifies nothing
+//@   ensures len(p) == n
+
+//@ extern peersToString(peers) (r)
+//@   trusted formats peer addresses for a log line
+//@   modifies nothing
+
+//@ func (*SyncManager).Sync(s, ctx, request) (err)
+//@   props C10
+//@   requires s.log != nil && s.info != nil && s.scheme != nil && common.validPeriod(s.info.Period) && common.validGenesis(s.info.GenesisTime)
+//@   loop 0: invariant [C10:peer-scan-position] -1 <= rangeindex0 && rangeindex0 <= 9223372036854775806 && s.info != nil && s.scheme != nil && common.validPeriod(s.info.Period) && common.validGenesis(s.info.GenesisTime)
+//@   ensures [C10:a-sync-with-no-peer-left-to-try-reports-ErrFailedAll] len(request.nodes) == 0 ==> is(err, ErrFailedAll)
